@@ -11,6 +11,7 @@ The static argument is "faithful tracking + Move <=> removal + terminal emptines
            moved exactly once when data is moved)
 """
 from .common import *
+from ..interp import Tok
 from . import shared
 from .c01 import rule_passes
 from .c03 import key_rule
@@ -43,9 +44,19 @@ def run(chk, ctx):
                         tri(chk, "C04.SD", cons, prove_eq(st, lo - Lin.sym("arg0@prev")), run_, rec,
                             "lower end of the Reverse minus the step just loaded")
         if not it.containers and has_reverse(run_) and run_.owner != shared.CONVERTER:
-            # data is written per step in the forward sweep: every load must be followed by the Reverse
-            for rec in it.yields:
-                if rec.kind in ("Copy", "Move"):
-                    fin = finality(run_)
+            # data is written per step in the forward sweep.  In a configuration that permits exactly one adjoint
+            # calculation every such checkpoint must have been removed when the schedule concludes: a load that only
+            # copies leaves it behind (in a repeatable configuration the opposite holds: C04.PERSIST)
+            wrote = any(shared.is_write(r) and r.arg(4, "storage") != WORK for r in it.yields)
+            if wrote and not multipass(run_):
+                k_ = 0
+                for rec in it.yields:
+                    if rec.kind == "Copy" and rec.arg(2, "to_storage") == WORK and isinstance(rec.arg(1, "from_storage"), Tok) \
+                            and rec.arg(1, "from_storage").v in ("StorageType.RAM", "StorageType.DISK"):
+                        chk.decide("C04.SD", ycons(run_, rec) + "/single-pass-copy", False,
+                                   f"{rec.yid} only copies a checkpoint in a configuration that permits one adjoint calculation"
+                                   f"{shared.cfgs(run_)}: the checkpoint is never deleted, storage is not clean at EndReverse",
+                                   rel=run_.rel, node=rec.node)
+                        k_ += 1
     chk.note("Revolve family: that every DISK/RAM checkpoint written by the sequence is eventually moved depends on the "
              "sequence; the converter-side necessary condition is C04.KEY")
